@@ -214,6 +214,13 @@ fractional, integral, signed, overflowing numbers, malformed and duplicate entri
             excl_case(w, r, &[p.clone()], "single");
         }
     }
+    // whole-path mode is not slash-aware: `?` (and `*`) may stand for a `/`, so a pattern and a path need not have the same depth
+    // (seed C15-O: a depth pre-filter skipped patterns without `*` whose slash count differs from the path's)
+    for (p, r) in [("d/a?b", "d/a/b"), ("a?b/c", "a/b/c"), ("a/b?c", "a/b/c"), ("a/?", "a/b"), ("a/a?a", "a/a/a"), ("a?a/a", "a/a/a"), ("a/?/a", "a/b/a"),
+                   ("?/a??", "a/a/a"), ("d/a?b", "d/axb"), ("d/a?b", "d/a/b/c"), ("a/b", "a/b/c"), ("a/*", "a/b/c"), ("a?b", "a/b")] {
+        excl_case(w, r, &[p.to_string()], "qmark-vs-slash");
+        excl_case(w, r, &["zzz".to_string(), p.to_string()], "qmark-vs-slash");
+    }
     for _ in 0..(if thorough { 100_000 } else { 6_000 }) {
         let n = rng.range(0, 3) as usize;
         let ex: Vec<String> = (0..n).map(|_| rng.pick(&ex_pats).clone()).collect();
